@@ -384,6 +384,14 @@ def run(ctx):
                [rm('Alpha', 'Gamma'), fk('c', 'Gamma'), rm('Gamma', 'Delta'), rm('Delta', 'Alpha')],
                [fk('c', 'Alpha'), rm('Alpha', 'Gamma'), rm('Gamma', 'Delta')],
                [rm('Alpha', 'Gamma'), rm('Gamma', 'Delta'), fk('c', 'Delta')]]
+    # ... and a relation of a model to itself, added in the batch that renames the model
+    fk_self = {'t': 'AddField', 'model': 'Alpha', 'field': 'p', 'ftype': 'ForeignKey', 'initial': None,
+               'attrs': [['null', 'true'], ['related_model', '"vapp.Alpha"']]}
+    add_int = lambda model, field: {'t': 'AddField', 'model': model, 'field': field, 'ftype': 'IntegerField',
+                                    'initial': '0', 'attrs': []}
+    family += [[fk_self, rm('Alpha', 'Gamma')],
+               [fk_self, rm('Alpha', 'Gamma'), add_int('Gamma', 'q')],
+               [fk_self, rm('Alpha', 'Gamma'), rm('Gamma', 'Delta')]]
     seqs = family + seqs
     copies = bool(ctx.variant.get('optimizer_copies'))
     reqs = [{'op': 'optimize', 'existing': existing, 'copies': copies,
